@@ -11,6 +11,8 @@ func genMap(c *Ctx) { gen.CheckKinds(c.Run, c.Prog) }
 func genGeneric(c *Ctx) {
 	gen.CheckKinds(c.Run, c.Prog)
 	gen.CheckAliasAware(c.Run, c.Prog)
+	lookupTable(c)
+	representativeTable(c)
 }
 
 func genFormat(c *Ctx) {}
